@@ -147,6 +147,7 @@ def encMsg (m : HsMsg) : Bytes := Spec.TlsHello.handshake m.1.toNat m.2
 def encMsgs (ms : List HsMsg) : Bytes := ms.flatMap encMsg
 /-- `uint24 length` -/
 def MsgOk (m : HsMsg) : Prop := m.2.length < 16777216
+instance (m : HsMsg) : Decidable (MsgOk m) := by unfold MsgOk; infer_instance
 /-- number of Finished messages (type 20) -/
 def finCount (ms : List HsMsg) : Nat := (ms.filter (fun m => m.1 = 20)).length
 
